@@ -206,7 +206,7 @@ Inductive path (adj : list wrow) : nat -> nat -> Prop :=
 Definition connected (adj : list wrow) : Prop :=
   forall i j, i < length adj -> j < length adj -> path adj i j.
 (** Undirected: the stored entries of row j mirror those of row i. *)
-Definition symmetric (adj : list wrow) : Prop :=
+Definition symmetric_adj (adj : list wrow) : Prop :=
   forall i j w, In (j, w) (wrow_of adj i) -> In (i, w) (wrow_of adj j).
 
 (** f equals the seed temperatures on the boundary and the weighted mean of its neighbours elsewhere. *)
@@ -234,3 +234,12 @@ Definition seed_min (seeds : list Q) : Q :=
   match filter is_seed seeds with [] => 0%Q | x :: t => qmin_list t x end.
 Definition seed_max (seeds : list Q) : Q :=
   match filter is_seed seeds with [] => 0%Q | x :: t => qmax_list t x end.
+
+(** Output conversion used by the harness (numerator, denominator as integers: printing-independent). *)
+Definition qz (q : Q) : Z * Z := (Qnum q, Zpos (Qden q)).
+Definition fit_z (r : result fit_out) : result (list (Z * Z) * option (list (Z * Z) * list (Z * Z))) :=
+  match r with
+  | Err e => Err e
+  | Ok (v, None) => Ok (map qz v, None)
+  | Ok (v, Some (a, b)) => Ok (map qz v, Some (map qz a, map qz b))
+  end.
